@@ -4,6 +4,7 @@ import (
 	"fmt"
 	"go/token"
 	"go/types"
+	"regexp"
 	"sort"
 	"strings"
 
@@ -11,6 +12,10 @@ import (
 )
 
 const maxInlineDepth = 4
+
+// channel observations in contract text: sent("K"), recvd("K"), closed("K"), sawEmpty("K")
+var chanObsRe = regexp.MustCompile(`\b(sent|recvd|closed|sawEmpty)\("([^"]+)"\)`)
+var chanObsCell = map[string]string{"sent": "sent", "recvd": "recvd", "closed": "closed", "sawEmpty": "sawempty"}
 
 // calleeName gives a stable name for model lookup: "pkgpath.Func" or "(pkgpath.T).Method" / "(*pkgpath.T).Method".
 func calleeModelName(fn *ssa.Function) string {
@@ -658,6 +663,25 @@ func (fc *FnCtx) applyContract(fr *Frame, st *State, instr ssa.Instruction, spec
 	}
 	env.setResults(res)
 	fc.applyEffects(st, pre, spec, env)
+	// channel observations (sent / recvd / closed counters, sawEmpty) that the callee's postconditions speak
+	// about are the callee's own sends and receives: for the caller they happen inside the call, so the
+	// caller's counters move by whatever the postconditions say (monotonically) instead of standing still
+	for _, en := range spec.Ensures {
+		for _, m := range chanObsRe.FindAllStringSubmatch(en.Src, -1) {
+			ck := cellKey{0, chanObsCell[m[1]] + ":" + m[2]}
+			if m[1] == "sawEmpty" {
+				st.cells[ck] = fc.fresh("sawempty", SBool)
+				continue
+			}
+			old, ok := st.cells[ck].(Term)
+			if !ok {
+				old = intLit(0)
+			}
+			n := fc.fresh(m[1], SInt)
+			fc.assume(st, tGe(n, old))
+			st.cells[ck] = n
+		}
+	}
 	for _, en := range spec.Ensures {
 		if strings.Contains(en.Src, "cur(") {
 			continue // speaks about the callee's locals at its exit: meaningless to a caller
